@@ -48,7 +48,7 @@ Definition ev1 : uev := mkuev 1 (hx "aa") (hx "bb") 7 [] false 0 0 0.
 Definition d8_view : view uev :=
   [ mkblk (hx "00") []; mkblk (hx "01") [(0, 0, ev1)]; mkblk (hx "02") []; mkblk (hx "03") [];
     mkblk (hx "04") []; mkblk (hx "05") [] ].
-Definition d8_flavour (legacy : bool) : flavour := registry_flavour 0 10 2 legacy.
+Definition d8_flavour (legacy : bool) : flavour := if legacy then legacy_registry_flavour 0 10 2 else registry_flavour 0 10 2 false.
 Definition d8_history : list (sync_input uev) := [(d8_view, ([], [NoFault; NoFault; Fail]))].
 
 Definition registry_grun := grun registry_key ukey_eqb registry_admissible registry_merge.
